@@ -8,7 +8,10 @@ import (
 )
 
 // Msg is the harness's message type: opaque bytes.
-type Msg struct{ Data []byte }
+type Msg struct {
+	Data []byte
+	Park bool // Marshal parks at the encoding's M gate (a slow user marshaller, under the stream's write lock)
+}
 
 // GateEnc is a drpc.Encoding whose Unmarshal (and optionally Marshal) can park at a gate, so that
 // the window in which the receiver holds the reader's buffer is a state the director controls.
@@ -21,7 +24,7 @@ type GateEnc struct {
 
 // Marshal returns the message bytes.
 func (e *GateEnc) Marshal(m drpc.Message) ([]byte, error) {
-	if e.ArmM.Load() {
+	if e.ArmM.Load() || m.(*Msg).Park {
 		e.M.Wait()
 	}
 	return m.(*Msg).Data, nil
